@@ -291,6 +291,18 @@ def canon(line):
     return line.rstrip()
 
 
+def _unlimit_stack():
+    import resource
+    try:
+        resource.setrlimit(resource.RLIMIT_STACK, (resource.RLIM_INFINITY, resource.RLIM_INFINITY))
+    except (ValueError, OSError):
+        try:
+            soft, hard = resource.getrlimit(resource.RLIMIT_STACK)
+            resource.setrlimit(resource.RLIMIT_STACK, (hard, hard))
+        except (ValueError, OSError):
+            pass
+
+
 def run_cases(binary, cases, extra_args=None, shards=16, timeout=3000, tag="x", env=None):
     """Run `binary run <file>` (harness) or `binary <file> flags` (driver) on the case lines,
     sharded over processes. Returns list of output lines (same length) or raises."""
@@ -316,7 +328,9 @@ def run_cases(binary, cases, extra_args=None, shards=16, timeout=3000, tag="x", 
             f.write("\n".join(part) + "\n")
         cmd = [binary, "run", fn] if is_harness else [binary, fn] + [str(x) for x in (extra_args or [])]
         of = open(fn + ".out", "w")
-        p = subprocess.Popen(cmd, stdout=of, stderr=subprocess.PIPE, env=e)
+        # the extracted model is not tail-recursive everywhere: give the OCaml driver an unlimited stack
+        pre = None if is_harness else _unlimit_stack
+        p = subprocess.Popen(cmd, stdout=of, stderr=subprocess.PIPE, env=e, preexec_fn=pre)
         procs.append((p, fn, of, len(part)))
     outs = []
     err = None
